@@ -17,7 +17,13 @@ import (
 	"time"
 )
 
-const SpecDir = "/verif/spec"
+// SpecDir holds the specification modules (VERIF_DIR overrides /verif for snapshot runs).
+var SpecDir = func() string {
+	if d := os.Getenv("VERIF_DIR"); d != "" {
+		return d + "/spec"
+	}
+	return "/verif/spec"
+}()
 
 type Job struct {
 	Module   string            // e.g. "ScanMC"
